@@ -34,6 +34,19 @@ type Solver struct {
 	Time                   time.Duration
 	Log                    io.Writer // optional transcript
 	ErrLines               []string
+	paths                  int
+	inScope                bool
+	lib                    *z3lib // in-process backend (Cmd[0] == "libz3")
+	buf                    strings.Builder
+	pendingOut             string
+}
+
+// Version describes the backend.
+func (s *Solver) Version() string {
+	if s.lib != nil {
+		return z3LibVersion() + " (in-process, Z3_eval_smtlib2_string)"
+	}
+	return strings.Join(s.Cmd, " ")
 }
 
 func NewSolver(cmd []string, timeoutMs int) (*Solver, error) {
@@ -45,6 +58,14 @@ func NewSolver(cmd []string, timeoutMs int) (*Solver, error) {
 }
 
 func (s *Solver) start() error {
+	if s.Cmd[0] == "libz3" {
+		s.lib = newZ3Lib()
+		s.P = NewPrinter()
+		s.send("(set-option :print-success false)\n")
+		s.send(fmt.Sprintf("(set-option :timeout %d)\n", s.TimeoutMs))
+		s.send("(set-option :produce-models true)\n")
+		return nil
+	}
 	s.cmd = exec.Command(s.Cmd[0], s.Cmd[1:]...)
 	in, err := s.cmd.StdinPipe()
 	if err != nil {
@@ -70,6 +91,9 @@ func (s *Solver) start() error {
 }
 
 func (s *Solver) Close() {
+	if s.lib != nil {
+		s.lib.close()
+	}
 	if s.cmd != nil {
 		s.in.Close()
 		s.cmd.Process.Kill()
@@ -81,6 +105,10 @@ func (s *Solver) Close() {
 func (s *Solver) send(text string) {
 	if s.Log != nil {
 		io.WriteString(s.Log, text)
+	}
+	if s.lib != nil {
+		s.buf.WriteString(text)
+		return
 	}
 	io.WriteString(s.in, text)
 }
@@ -98,12 +126,21 @@ func (s *Solver) Reset() {
 		s.send("(pop 1)\n")
 		s.depth--
 	}
-	s.send("(reset)\n")
-	s.send("(set-option :print-success false)\n")
-	if strings.Contains(s.Cmd[0], "z3") {
-		s.send(fmt.Sprintf("(set-option :timeout %d)\n", s.TimeoutMs))
+	s.paths++
+	if s.inScope {
+		s.send("(pop 1)\n") // drops the previous path's assertions, declarations and definitions
 	}
-	s.send("(set-option :produce-models true)\n")
+	if s.paths%2000 == 0 {
+		// occasionally start from a clean context (bounds solver memory growth)
+		s.send("(reset)\n")
+		s.send("(set-option :print-success false)\n")
+		if strings.Contains(s.Cmd[0], "z3") {
+			s.send(fmt.Sprintf("(set-option :timeout %d)\n", s.TimeoutMs))
+		}
+		s.send("(set-option :produce-models true)\n")
+	}
+	s.send("(push 1)\n")
+	s.inScope = true
 	s.P = NewPrinter()
 }
 
@@ -147,7 +184,49 @@ func (s *Solver) Pop() {
 	}
 }
 
+// flushLib evaluates the buffered commands in-process and returns their output.
+func (s *Solver) flushLib() string {
+	cmds := s.buf.String()
+	s.buf.Reset()
+	return s.lib.eval(cmds)
+}
+
+func (s *Solver) readResultLib() Result {
+	out := s.flushLib()
+	res := Unknown
+	bad := false
+	for _, line := range strings.Split(out, "\n") {
+		line = strings.TrimSpace(line)
+		switch {
+		case line == "sat":
+			res = Sat
+		case line == "unsat":
+			res = Unsat
+		case line == "unknown" || line == "timeout":
+			res = Unknown
+		case strings.HasPrefix(line, "(error"):
+			s.ErrLines = append(s.ErrLines, line)
+			bad = true
+		}
+	}
+	if bad {
+		res = Unknown
+	}
+	switch res {
+	case Sat:
+		s.NSat++
+	case Unsat:
+		s.NUnsat++
+	default:
+		s.NUnknown++
+	}
+	return res
+}
+
 func (s *Solver) readResult() Result {
+	if s.lib != nil {
+		return s.readResultLib()
+	}
 	for {
 		line, err := s.readLine()
 		if err != nil {
@@ -200,7 +279,12 @@ func (s *Solver) GetModel() *Model {
 	sb.WriteString("))\n")
 	s.send(sb.String())
 	// read one balanced s-expression
-	text := s.readSexp()
+	var text string
+	if s.lib != nil {
+		text = s.flushLib()
+	} else {
+		text = s.readSexp()
+	}
 	parseModel(text, s.P.Declared, m)
 	return m
 }
